@@ -99,7 +99,11 @@ Proof.
     split; [apply memb_In; exact Hu|]. split; [apply memb_In; exact Hy|]. intros [E1 E2]. subst. rewrite !Pos.eqb_refl in Hn. discriminate.
   - intros u p e q Hin. pose proof (proj1 (forallb_forall _ _) K _ Hin) as Hk. cbv beta iota in Hk.
     apply andb_true_iff in Hk. destruct Hk as [Hk Hn]. apply andb_true_iff in Hk. destruct Hk as [Hu Hy].
-    split; [apply memb_In; exact Hu|]. split; [apply memb_In; exact Hy|]. intros [E1 E2]. subst. rewrite !Pos.eqb_refl in Hn. discriminate.
+    split; [apply memb_In; exact Hu | apply memb_In; exact Hy].
+  - intros x p q o _ Hin. exfalso. pose proof (proj1 (forallb_forall _ _) K _ Hin) as Hk. cbv beta iota in Hk.
+    rewrite !Pos.eqb_refl in Hk. apply andb_true_iff in Hk. destruct Hk as [_ Hn]. discriminate.
+  - intros q o y q' Hin _. exfalso. pose proof (proj1 (forallb_forall _ _) K _ Hin) as Hk. cbv beta iota in Hk.
+    rewrite !Pos.eqb_refl in Hk. apply andb_true_iff in Hk. destruct Hk as [_ Hn]. discriminate.
 Qed.
 
 Lemma shape_of_devices cfg c lvc pre inn post :
@@ -199,6 +203,29 @@ Definition sub_okb (cfg : config) (g : nat) (c : comp) (lvc : positive) (named :
   && forallb (fun z : comp => negb (memb z named) && negb (Pos.eqb z c)) (devices_below cfg g ly)
   && forallb (fun l : positive => single_sourceb (l_conns (level_of cfg l))) (levels_below cfg g ly).
 
+(* pass-through ports (external -> expose): their sources come before the system, their sinks after it *)
+Definition pt_okb (cfg : config) (c : comp) (lvc : positive) (pre post : list comp) : bool :=
+  forallb (fun k2 : conn => let '(u, q, e, o) := k2 in
+             if Pos.eqb u ext_id && Pos.eqb e exp_id then
+               forallb (fun k : conn => let '(x, _, ic, q1) := k in if Pos.eqb ic c && Pos.eqb q1 q then memb x pre else true)
+                       (l_conns (level_of cfg top))
+               && forallb (fun k : conn => let '(oc, op, y, _) := k in if Pos.eqb oc c && Pos.eqb op o then memb y post else true)
+                          (l_conns (level_of cfg top))
+             else true) (l_conns (level_of cfg lvc)).
+
+Lemma pt_okb_sound cfg c lvc pre post : pt_okb cfg c lvc pre post = true ->
+  (forall x p q o, In (x, p, c, q) (l_conns (level_of cfg top)) -> In (ext_id, q, exp_id, o) (l_conns (level_of cfg lvc)) -> In x pre) /\
+  (forall q o y q', In (ext_id, q, exp_id, o) (l_conns (level_of cfg lvc)) -> In (c, o, y, q') (l_conns (level_of cfg top)) -> In y post).
+Proof.
+  intros H. split.
+  - intros x p q o H1 H2. pose proof (proj1 (forallb_forall _ _) H _ H2) as Hk. cbv beta iota in Hk. rewrite !Pos.eqb_refl in Hk. cbn [andb] in Hk.
+    apply andb_true_iff in Hk. destruct Hk as [Hk _]. pose proof (proj1 (forallb_forall _ _) Hk _ H1) as Hx. cbv beta iota in Hx.
+    rewrite !Pos.eqb_refl in Hx. cbn [andb] in Hx. apply memb_In. exact Hx.
+  - intros q o y q' H2 H1. pose proof (proj1 (forallb_forall _ _) H _ H2) as Hk. cbv beta iota in Hk. rewrite !Pos.eqb_refl in Hk. cbn [andb] in Hk.
+    apply andb_true_iff in Hk. destruct Hk as [_ Hk]. pose proof (proj1 (forallb_forall _ _) Hk _ H1) as Hx. cbv beta iota in Hx.
+    rewrite !Pos.eqb_refl in Hx. cbn [andb] in Hx. apply memb_In. exact Hx.
+Qed.
+
 Definition shape_at (cfg : config) (g : nat) (c : comp) : option (positive * list comp * list comp * list comp) :=
   match g with
   | O => None
@@ -213,9 +240,9 @@ Definition shape_at (cfg : config) (g : nat) (c : comp) : option (positive * lis
          && forallb (fun k : conn => let '(u, _, y, _) := k in
                        memb u (c :: pre ++ post) && memb y (c :: pre ++ post) && negb (Pos.eqb u c && Pos.eqb y c))
                     (l_conns (level_of cfg top))
-         && forallb (fun k : conn => let '(u, _, e, _) := k in
-                       memb u (ext_id :: inn) && memb e (exp_id :: inn) && negb (Pos.eqb u ext_id && Pos.eqb e exp_id))
+         && forallb (fun k : conn => let '(u, _, e, _) := k in memb u (ext_id :: inn) && memb e (exp_id :: inn))
                     (l_conns (level_of cfg lvc))
+         && pt_okb cfg c lvc pre post
          && forallb (fun y : comp =>
                        match kd_of cfg y with
                        | KDev => true
@@ -276,7 +303,7 @@ Proof.
   destruct k as [|lvc']; [discriminate|].
   match goal with |- (if ?b then _ else _) = _ -> _ => destruct b eqn:Eb; [|discriminate] end.
   intros H. inversion H; subst. clear H.
-  do 7 (apply andb_true_iff in Eb; let H := fresh "K" in destruct Eb as [Eb H]).
+  do 8 (apply andb_true_iff in Eb; let H := fresh "K" in destruct Eb as [Eb H]).
   assert (Hnd : NoDup (c :: ext_id :: exp_id :: pre ++ map fst (l_order (level_of cfg lvc)) ++ post)) by (apply nodupb_NoDup; exact Eb).
   destruct (split_at_sound c _ _ _ _ Es) as [prel [postl [Etop [Epre Epost]]]]. subst pre post.
   assert (Hkeys : NoDup (keys (l_order (level_of cfg top)))).
@@ -297,15 +324,17 @@ Proof.
         intros x k Hi; apply Hkd; rewrite Etop; apply in_app_iff; [right; right; exact Hi | left; exact Hi].
     + apply order_as_dki. exact (inner_nodup _ _ _ _ _ _ Hnd).
     + exact Hnd.
-    + intros E. rewrite E, Pos.eqb_refl in K5. discriminate.
+    + intros E. rewrite E, Pos.eqb_refl in K6. discriminate.
+    + apply single_sourceb_sound. exact K5.
     + apply single_sourceb_sound. exact K4.
-    + apply single_sourceb_sound. exact K3.
-    + intros u p y q Hin. pose proof (proj1 (forallb_forall _ _) K2 _ Hin) as Hk. cbv beta iota in Hk.
+    + intros u p y q Hin. pose proof (proj1 (forallb_forall _ _) K3 _ Hin) as Hk. cbv beta iota in Hk.
       apply andb_true_iff in Hk. destruct Hk as [Hk Hn]. apply andb_true_iff in Hk. destruct Hk as [Hu Hy].
       split; [apply memb_In; exact Hu|]. split; [apply memb_In; exact Hy|]. intros [E1 E2]. subst. rewrite !Pos.eqb_refl in Hn. discriminate.
-    + intros u p e q Hin. pose proof (proj1 (forallb_forall _ _) K1 _ Hin) as Hk. cbv beta iota in Hk.
-      apply andb_true_iff in Hk. destruct Hk as [Hk Hn]. apply andb_true_iff in Hk. destruct Hk as [Hu Hy].
-      split; [apply memb_In; exact Hu|]. split; [apply memb_In; exact Hy|]. intros [E1 E2]. subst. rewrite !Pos.eqb_refl in Hn. discriminate.
+    + intros u p e q Hin. pose proof (proj1 (forallb_forall _ _) K2 _ Hin) as Hk. cbv beta iota in Hk.
+      apply andb_true_iff in Hk. destruct Hk as [Hu Hy].
+      split; [apply memb_In; exact Hu | apply memb_In; exact Hy].
+    + exact (proj1 (pt_okb_sound _ _ _ _ _ K1)).
+    + exact (proj2 (pt_okb_sound _ _ _ _ _ K1)).
   - intros y ly g [[Hy [Hk Eg]]|[Hy [Hk Eg]]]; subst g.
     + pose proof (proj1 (forallb_forall _ _) K0 _ Hy) as Hc. cbv beta in Hc. rewrite Hk in Hc.
       destruct (sub_okb_sound _ _ _ _ _ _ Hc) as [A [B [C D]]].
